@@ -89,6 +89,8 @@ type World struct {
 	Trace   []string // kept only when KeepTrace
 	KeepTrace bool
 	Livelock bool
+	// StopOnPanic makes Run return RunPanic as soon as any task has panicked.
+	StopOnPanic bool
 	// CrashReq is set by CrashNow (a task asking for the process to die at this exact point).
 	CrashReq bool
 	// CrashAtStep makes Run return RunCrash when the step counter reaches it (0 = never).
@@ -337,6 +339,7 @@ const (
 	RunStopped                    // stop() returned true
 	RunLivelock                   // step budget exhausted
 	RunCrash                      // a crash point fired (CrashNow or CrashAtStep)
+	RunPanic                      // a task ended in a panic (process death in the real server)
 )
 
 // Run drives the world until it has been idle (nothing runnable, no external action enabled) for
@@ -348,6 +351,14 @@ func (w *World) Run(settle time.Duration, stop func() bool) RunResult {
 		w.cur = nil
 		if w.CrashReq {
 			return RunCrash
+		}
+		if w.StopOnPanic {
+			w.mu.Lock()
+			np := len(w.Panics)
+			w.mu.Unlock()
+			if np > 0 {
+				return RunPanic
+			}
 		}
 		cand, running := w.runnable()
 		if running {
